@@ -241,7 +241,11 @@ pub fn noise(leaves: &[Leaf], lo: &Located, msg: &mut [u8], rng: &mut Rng) {
     }
 }
 
-pub const FILL_TARGET: usize = 60_000;
+/// Size "duplicate until full" aims at (just under 64 KiB). Halved by the harness when it checks how cost scales.
+pub static FILL: std::sync::atomic::AtomicUsize = std::sync::atomic::AtomicUsize::new(60_000);
+fn fill_target() -> usize {
+    FILL.load(std::sync::atomic::Ordering::Relaxed)
+}
 
 /// The concrete bytes of the class (leaf `i`, mutation `m`), or None when the class has no
 /// concrete instance on this genuine message (e.g. truncate-inside of an empty field).
@@ -314,6 +318,15 @@ pub fn mutate(leaves: &[Leaf], lo: &Located, msg: &[u8], i: usize, m: &str) -> O
             set_val(&mut out, leaf, loc, v);
             Some(out)
         }
+        "val_0" | "val_max" => {
+            let v = if m == "val_0" { 0 } else { max_val(leaf, loc) };
+            if get_val(msg, leaf, loc) == v || loc.w == 0 {
+                return None;
+            }
+            let mut out = msg.to_vec();
+            set_val(&mut out, leaf, loc, v);
+            Some(out)
+        }
         "tag_unknown" => {
             let mut out = msg.to_vec();
             if get_val(msg, leaf, loc) == leaf.unk & max_val(leaf, loc) {
@@ -331,10 +344,10 @@ pub fn mutate(leaves: &[Leaf], lo: &Located, msg: &[u8], i: usize, m: &str) -> O
             }
             let mut k = 1usize;
             if m == "dup_fill" {
-                if msg.len() >= FILL_TARGET {
+                if msg.len() >= fill_target() {
                     return None;
                 }
-                k = (FILL_TARGET - msg.len()) / esize;
+                k = (fill_target() - msg.len()) / esize;
                 // every containing length field must still be representable
                 for (j, l) in leaves.iter().enumerate() {
                     if !(l.k == "len" || (l.k == "count" && l.unit > 0)) {
@@ -503,10 +516,10 @@ pub fn text_mutate(text: &str, leaf: &Leaf, m: &str) -> Option<String> {
             let k = if m == "dup" {
                 1
             } else {
-                if text.len() >= FILL_TARGET {
+                if text.len() >= fill_target() {
                     return None;
                 }
-                (FILL_TARGET - text.len()) / (line.len() + 2)
+                (fill_target() - text.len()) / (line.len() + 2)
             };
             if k == 0 {
                 return None;
